@@ -40,7 +40,9 @@ bool vp_hash_same_output(unsigned k, unsigned l);          // calls k and l were
 }
 static inline unsigned symCount(unsigned which, unsigned max) { return vp_c20_count(which, max); }
 // alphabet: ALPHA=3 -> {a, b, B};  ALPHA=0 -> every ASCII character 0x20..0x7e except '<' and '/' (XEP-0115 5.1 uses
-// them as separators and rejects '<' in the data; see SPEC outside)
+// them as separators and rejects '<' in the data; see SPEC outside);  ALPHA=4 -> {'-', '0', 'A', 'a'}: characters on both
+// sides of the separators ('-' 0x2D < '/' 0x2F < '0' 0x30 < '<' 0x3C < 'A' 0x41 < 'a' 0x61) and one letter in both cases
+// (spec_sep.py: a sort key that lets a separator take part in the comparison, or folds case, orders these differently)
 #ifndef ALPHA
 #define ALPHA 3
 #endif
@@ -50,6 +52,9 @@ static inline unsigned short symChar()
 #if ALPHA == 3
     vp_assume(c < 3);
     return c == 0 ? 'a' : (c == 1 ? 'b' : 'B');
+#elif ALPHA == 4
+    vp_assume(c < 4);
+    return c == 0 ? '-' : (c == 1 ? '0' : (c == 2 ? 'A' : 'a'));
 #else
     vp_assume(c >= 0x20 && c <= 0x7e && c != '<' && c != '/');
     return c;
